@@ -69,7 +69,8 @@ def from_yaml_all(f: FileOrPath, ty: t.Type[T], *,
     with open_file(f) as f:
         obj = t.cast(t.List[t.Any], list(yaml.load_all(f, Loader)))  # type: ignore
 
-    return from_data(obj, t.List[ty], custom=custom)
+    # not ``t.List[ty]``: a tuple type literal like ``(int, str)`` would be unpacked into several type arguments
+    return from_data(obj, t.cast(t.Type[t.List[T]], list[(ty,)]), custom=custom)
 
 
 def write_json(obj: Convertible, f: FileOrPath, *,
